@@ -178,7 +178,12 @@ fn run_cstr(out: &mut Out, h: &[COp], flavour: u64, tag: &str) {
     let toks: Vec<String> = h.iter().map(cop_token).collect();
     let op = format!("cstr {}", if toks.is_empty() { ".".into() } else { toks.join(",") });
     for (k, c) in h.iter().enumerate() {
-        apply_cop(c, flavour >> k);
+        // a panic inside the string buffer is the answer of this history, not the end of the run
+        if std::panic::catch_unwind(std::panic::AssertUnwindSafe(|| apply_cop(c, flavour >> k))).is_err() {
+            out.case(&op, &format!("panic@{k}"), Some(&op), &[tag, "cstr.panic"]);
+            ffi::wirefilter_clear_last_error();
+            return;
+        }
         let raw = le_raw();
         if !raw_ok(&raw) {
             out.impl_failure(&op, &format!("LAST_ERROR vector {:?} after step {k} is neither empty nor NUL-terminated without interior NUL", raw));
